@@ -105,6 +105,7 @@ pub struct Stats {
     pub solver_ns: u128,
     pub concrete_replays: u64,
     pub witness: BTreeMap<String, u64>,
+    pub maxima: BTreeMap<String, u64>,
     pub max_depth: usize,
 }
 
@@ -126,6 +127,10 @@ impl Stats {
         self.concrete_replays += o.concrete_replays;
         for (k, v) in &o.witness {
             *self.witness.entry(k.clone()).or_insert(0) += v;
+        }
+        for (k, v) in &o.maxima {
+            let e = self.maxima.entry(k.clone()).or_insert(0);
+            *e = (*e).max(*v);
         }
         self.max_depth = self.max_depth.max(o.max_depth);
     }
@@ -162,6 +167,8 @@ pub struct Engine {
     split_depth: usize,
     samples: Vec<serde_json::Value>,
     run_notes: Vec<(String, serde_json::Value)>,
+    /// optional per-constant hash classes (must be lawful: see `set_hash_class`)
+    hash_classes: HashMap<u32, u64>,
 }
 
 thread_local! {
@@ -220,6 +227,7 @@ impl Engine {
             split_depth: 0,
             samples: vec![],
             run_notes: vec![],
+            hash_classes: HashMap::new(),
         }
     }
 
@@ -578,6 +586,14 @@ pub fn witness(name: &str) {
     })
 }
 
+/// Track the maximum of a measured quantity over all paths (reported in evidence).
+pub fn stat_max(name: &str, v: u64) {
+    with(|e| {
+        let x = e.stats.maxima.entry(name.to_string()).or_insert(0);
+        *x = (*x).max(v);
+    })
+}
+
 /// Offer a sample of what this path looked like (first few are kept).
 pub fn offer_sample(f: impl FnOnce() -> serde_json::Value) {
     let want = with(|e| e.mode != Mode::Concrete && e.samples.len() < 2);
@@ -626,8 +642,17 @@ pub fn concrete_value_for_hash(id: u32) -> Option<i64> {
         if e.mode == Mode::Concrete {
             e.values.get(id as usize).copied()
         } else {
-            None
+            e.hash_classes.get(&id).map(|c| *c as i64)
         }
+    })
+}
+
+/// Give a symbolic constant a hash class for this run.  The caller must keep
+/// Hash lawful: two constants may get different classes only if the path
+/// condition (by an explicit assumption) makes them unequal.
+pub fn set_hash_class(id: u32, class: u64) {
+    with(|e| {
+        e.hash_classes.insert(id, class);
     })
 }
 
@@ -818,6 +843,7 @@ where
                                 e.run_cmps = 0;
                                 e.cmp_mark = None;
                                 e.run_notes.clear();
+                                e.hash_classes.clear();
                                 e.cache.clear();
                                 e.z3.as_mut().unwrap().push();
                                 let st = e.stack.clone();
@@ -1032,7 +1058,7 @@ fn stats_json(s: &Stats) -> serde_json::Value {
         "must_hold": s.must_hold, "entail_queries": s.entail_queries, "cmps": s.cmps,
         "solver_checks": s.solver_checks, "solver_sat": s.solver_sat, "solver_unsat": s.solver_unsat,
         "solver_ns": s.solver_ns as u64, "concrete_replays": s.concrete_replays,
-        "witness": s.witness, "max_depth": s.max_depth,
+        "witness": s.witness, "maxima": s.maxima, "max_depth": s.max_depth,
     })
 }
 fn stats_from(v: &serde_json::Value) -> Stats {
@@ -1059,6 +1085,15 @@ fn stats_from(v: &serde_json::Value) -> Stats {
         solver_ns: g("solver_ns") as u128,
         concrete_replays: g("concrete_replays"),
         witness: w,
+        maxima: {
+            let mut m = BTreeMap::new();
+            if let Some(o) = v["maxima"].as_object() {
+                for (k, x) in o {
+                    m.insert(k.clone(), x.as_u64().unwrap_or(0));
+                }
+            }
+            m
+        },
         max_depth: g("max_depth") as usize,
     }
 }
